@@ -1000,7 +1000,25 @@ func c20Lifecycle(p *Prog, l *Ledger, locks *LockInfo, nt *types.Named) {
 				if !sel.Block().Dominates(rg.Block()) {
 					bad = append(bad, fmt.Sprintf("%s: gauges are polled outside the select loop", p.At(ins)))
 				}
-				if !ownLockHeld(ins, runFn.Params[0]) {
+				var self ssa.Value
+				if runFn.Signature.Recv() != nil && len(runFn.Params) > 0 {
+					self = runFn.Params[0]
+				} else {
+					for _, fv := range runFn.FreeVars {
+						t := fv.Type()
+						if pt, ok := t.(*types.Pointer); ok {
+							if _, pp := pt.Elem().(*types.Pointer); pp {
+								t = pt.Elem() // a captured variable cell holding the registry pointer
+							}
+						}
+						if d := derefNamed(t); d != nil && types.Identical(d, nt) {
+							self = fv
+						}
+					}
+				}
+				if self == nil {
+					bad = append(bad, fmt.Sprintf("%s: cannot identify the registry in the poll loop's function", p.At(ins)))
+				} else if !ownLockHeld(ins, self) {
 					bad = append(bad, fmt.Sprintf("%s: gauges are polled without the registry mutex", p.At(ins)))
 				}
 			}
